@@ -4,35 +4,22 @@ package main
 
 // An independent reference parser for RFC 9651 §4.2, written from the RFC's
 // algorithm text. It reports the same text spans the httpsfv callbacks get.
-// `quirks` switch on, one by one, the deviations of the Go code that are
-// recorded as known findings, so that the oracle can attribute a difference.
 
 import (
 	"strings"
 	"unicode/utf8"
 )
 
-type quirks struct {
-	tab       bool // HTAB skipped where the RFC says "discard any leading SP"
-	openParen bool // "(" at the very end of input accepted as an inner list
-	noComma   bool // dictionary members need no "," between them
-	fffd      bool // display strings containing U+FFFD rejected
-}
-
-var noQuirks = quirks{}
-var allQuirks = quirks{true, true, true, true}
-
 type ref struct {
 	s string
 	i int
-	q quirks
 }
 
 func (p *ref) eof() bool  { return p.i >= len(p.s) }
 func (p *ref) peek() byte { return p.s[p.i] }
 
 func (p *ref) skipSP() {
-	for !p.eof() && (p.peek() == ' ' || (p.q.tab && p.peek() == '\t')) {
+	for !p.eof() && p.peek() == ' ' {
 		p.i++
 	}
 }
@@ -238,9 +225,6 @@ func (p *ref) displayString() (text, val string, ok bool) {
 			if !utf8.Valid(out) {
 				return "", "", false
 			}
-			if p.q.fffd && strings.Contains(string(out), "\uFFFD") {
-				return "", "", false
-			}
 			return p.s[st:p.i], string(out), true
 		default:
 			out = append(out, c)
@@ -309,9 +293,6 @@ func (p *ref) bareInnerList() (cbs [][2]string, text string, ok bool) {
 		return nil, "", false
 	}
 	p.i++
-	if p.q.openParen && p.eof() {
-		return nil, p.s[st:p.i], true
-	}
 	for !p.eof() {
 		p.skipSP()
 		if !p.eof() && p.peek() == ')' {
@@ -393,11 +374,10 @@ func (p *ref) dict() (cbs [][3]string, ok bool) {
 		if p.eof() {
 			return cbs, true
 		}
-		if p.peek() == ',' {
-			p.i++
-		} else if !p.q.noComma {
+		if p.peek() != ',' {
 			return nil, false
 		}
+		p.i++
 		p.skipOWS()
 		if p.eof() {
 			return nil, false
